@@ -234,7 +234,7 @@ class Destroy(FnSpec):
 
 def add_metaread(reg):
     reg.set_class_home("MetadorMetaRead", "container/interface.py", "MetadorMeta")
-    specs = [ViewSpec("values", True), ViewSpec("items", True), ViewSpec("keys", False), GetItem(), Contains(), Destroy(), MetaInit(), RequireSchema(), ParseObj()]
+    specs = [ViewSpec("values", True), ViewSpec("items", True), ViewSpec("keys", False), GetItem(), Contains(), Destroy(), MetaInit(), RequireSchema(), ParseObj(), NodeQuery()]
     for s in specs:
         reg.add(s)
     return specs
@@ -512,3 +512,193 @@ class ParseObj(FnSpec):
             ok = isinstance(res, tuple) and res[0] == "parse_obj" and res[1] is a.obj
             cl = "a dict is validated by the requested schema"
         return [("parsed-by-the-requested-schema", z3.BoolVal(bool(ok)), cl + " — always by the class that was asked for, never stored unvalidated")]
+
+
+# ---- MetadorMeta.query (node level): which schemas of this node answer a request ------------------------------------------------------------
+SRefS = z3.DeclareSort("SchemaRefValue")
+IS_CHILD = z3.Function("toc_children_lists", SRefS, SRefS, B)  # c in schemas.children(ref)   (TOCSchemas.children; the children map is C06/C20's)
+IS_VERSION = z3.Function("toc_versions_lists", SRefS, B)  # ref in schemas.versions(name, ver)  (TOCSchemas.versions, its own contract)
+OWN_HIT = z3.Bool("get_raw_finds_an_object_of_the_requested_schema")
+OWN_REF = z3.Const("schema_of_the_object_get_raw_found", SRefS)
+STORED_REF = z3.Function("schema_ref_of_the_object_stored_under_name", S, SRefS)  # self._get_raw(name).schema
+NAME_EMPTY = z3.Bool("no_schema_name_given")
+
+
+class TSRef:
+    def sort(self):
+        return SRefS
+
+    def wrap(self, t):
+        return SRefV(t)
+
+    def unwrap(self, cx, v):
+        if isinstance(v, SRefV):
+            return v.t
+        raise Unsupported("not a schema reference")
+
+
+class SRefV(SVal):
+    def __init__(self, t):
+        self.t = t
+
+    def py_hash(self, cx):
+        raise Unsupported("hash")
+
+
+class StoredO(SVal):
+    def __init__(self, ref_t):
+        self.ref_t = ref_t
+
+    def py_truth(self, cx):
+        return True
+
+    def py_getattr(self, cx, n):
+        if n == "schema":
+            return SRefV(self.ref_t)
+        raise Unsupported("stored metadata attribute " + n)
+
+
+class EmptySet(SVal):
+    """set() in `set().union(*(...))`"""
+
+    def meth_union(self, cx, *args):
+        from pyvc.engine import StarOf
+
+        if len(args) != 1 or not isinstance(args[0], StarOf):
+            raise Unsupported("set().union of something else than *(generator)")
+        bound, rng, val = args[0].elementwise(cx.run.interp, cx)
+        if not isinstance(val, SSet):
+            raise Unsupported("the united things are not sets")
+        x = z3.Const(fresh_name("ux"), val.kt.sort())
+        res = SSet.fresh(val.kt, "big_union")
+        cx.assume(z3.ForAll([x], res.has(x) == z3.Exists([bound], z3.And(rng, val.has(x)))))
+        return res
+
+
+def stored_schemas_schema(interp, cx, fr, e):
+    """{self._get_raw(s).schema for s in self.keys()}: the set of schemas of the attached objects"""
+    import ast
+
+    from pyvc.api import ContractStale
+    from pyvc.engine import Env, Frame
+
+    if not isinstance(e, ast.SetComp) or len(e.generators) != 1 or e.generators[0].ifs:
+        return NotImplemented
+    g = e.generators[0]
+    src = interp.eval(cx, fr, g.iter)
+    if not isinstance(src, SSet):
+        return NotImplemented
+    kk = z3.Const(fresh_name("nk"), src.kt.sort())
+    sub = Frame(fr.modinfo, fr.qual, Env(fr.env), spec=fr.spec, cls=fr.cls)
+    vals, fails, axioms = interp.eval_exprs_on_element(cx, sub, g.target, src.kt.wrap(kk), [e.elt], kk)
+    if fails or axioms or not isinstance(vals[0], SRefV):
+        raise ContractStale("the set of available schemas is no longer {stored object's schema for each attached name}")
+    x = z3.Const(fresh_name("ax"), SRefS)
+    res = SSet.fresh(TSRef(), "available")
+    cx.assume(z3.ForAll([x], res.has(x) == z3.Exists([kk], z3.And(src.has(kk), vals[0].t == x))))
+    return res
+
+
+class NodeQuery(FnSpec):
+    file = "container/interface.py"
+    qual = "MetadorMeta.query"
+    props = ("C07",)
+
+    def init(self):
+        self.bindings["plugin_args"] = lambda cx, s, v: STuple((cx.ghost["nq"].name, cx.ghost["nq"].ver))
+        self.bindings["set"] = lambda cx, *a: EmptySet() if not a else (_ for _ in ()).throw(Unsupported("set(x)"))
+        self.comps[0] = stored_schemas_schema
+
+        def inv_all(cx, env, it):
+            a = cx.ghost["nq"]
+            x = z3.Const(fresh_name("qx"), SRefS)
+            return [("yielded-so-far-are-the-schemas-of-the-objects-so-far", z3.ForAll([x], a.yielded.has(x) == z3.Select(it.processed, x)))]
+
+        def inv_compat(cx, env, it):
+            a = cx.ghost["nq"]
+            x = z3.Const(fresh_name("qy"), SRefS)
+            return [("yielded-so-far", z3.ForAll([x], a.yielded.has(x) == z3.Or(z3.And(a.own_done, x == OWN_REF), z3.Select(it.processed, x))))]
+
+        self.loops[("iter", "self.values()")] = LoopSpec(inv_all, modifies=["obj"], havoc_inplace=["self.yielded_log"])
+        self.loops[("iter", "avail.intersection(compat)")] = LoopSpec(inv_compat, modifies=["s_ref"], havoc_inplace=["self.yielded_log"])
+
+    def on_yield(self, cx, v):
+        a = cx.ghost["nq"]
+        if not isinstance(v, SRefV):
+            cx.oblige("yields-schema-references", "call-pre", z3.BoolVal(False), clause="only schema references are yielded")
+            return
+        a.yielded.py_call_method(cx, "add", [v], {})
+
+    def setup(self, cx):
+        me = SObj("MetadorMetaRead", name="self")
+        names = SSet.fresh(STR, "attached_schema_names")
+        stored_refs = SSet.fresh(TSRef(), "schemas_of_all_attached_objects")
+        yl = SSet(TSRef())
+        me.fields["yielded_log"] = yl
+
+        class Vals(SVal):
+            def py_iter_schema(s, cx2):
+                return SetIter(TSRef(), stored_refs.dom, lambda t: StoredO(t))
+
+        me.fields["values"] = lambda cx2: Vals()
+        me.fields["keys"] = lambda cx2: names
+        a = A(self=me, schema="schema-arg", version="version-arg")
+        a.name = NameTok()
+        a.ver = "version-token"
+
+        def get_raw(cx2, n, *ver):
+            if isinstance(n, NameTok):  # the requested schema, with the requested version
+                if len(ver) != 1 or ver[0] != "version-token":
+                    raise Unsupported("_get_raw for the request without its version")
+                return SMaybe(z3.Not(OWN_HIT), StoredO(OWN_REF))
+            if isinstance(n, SStr) and not ver:  # an attached name, any version
+                return StoredO(STORED_REF(n.t))
+            raise Unsupported("_get_raw of something else")
+
+        me.fields["_get_raw"] = get_raw
+
+        class Schemas(SVal):
+            def meth_versions(s, cx2, n, v):
+                if not isinstance(n, NameTok) or v != "version-token":
+                    raise Unsupported("versions of another request")
+                x = z3.Const(fresh_name("vx"), SRefS)
+                return SSet(TSRef(), z3.Lambda([x], IS_VERSION(x)))
+
+            def meth_children(s, cx2, ref):
+                x = z3.Const(fresh_name("cx"), SRefS)
+                return SSet(TSRef(), z3.Lambda([x], IS_CHILD(ref.t, x)))
+
+        toc = SObj("TocStub", name="toc")
+        toc.fields["schemas"] = Schemas()
+        mc = SObj("ContainerStub", name="mc")
+        mc.fields["metador"] = toc
+        me.fields["_mc"] = mc
+        a.names, a.stored_refs, a.yielded = names, stored_refs, yl
+        a.own_done = z3.BoolVal(False)
+        cx.ghost["nq"] = a
+        # the objects of the node: their schemas are the schemas stored under the attached names
+        x, k = z3.Const("sx", SRefS), z3.String("sk")
+        cx.assume(z3.ForAll([x], stored_refs.has(x) == z3.Exists([k], z3.And(names.has(k), STORED_REF(k) == x))))
+        return a
+
+    def raises(self, cx, a):
+        return {}
+
+    def ensures(self, cx, a, res):
+        x, r, k = z3.Const("ex", SRefS), z3.Const("er", SRefS), z3.String("ek")
+        first = [y for y in getattr(cx, "yielded", []) if y[0] == "one"]
+        own_first = len(first) <= 1 and all(isinstance(y[1], SRefV) for y in first)
+        own_t = first[0][1].t if first else None
+        compat = z3.Exists([r], z3.And(IS_VERSION(r), IS_CHILD(r, x)))
+        avail = z3.Exists([k], z3.And(a.names.has(k), STORED_REF(k) == x))
+        in_loop = a.yielded.has(x)
+        return [
+            ("without-a-name-every-attached-schema", z3.Implies(NAME_EMPTY, z3.And(z3.BoolVal(not first), z3.ForAll([x], in_loop == a.stored_refs.has(x)))), "an empty request lists the schema of every object attached to the node"),
+            ("own-schema-first-iff-a-compatible-object-is-attached", z3.Implies(z3.Not(NAME_EMPTY), z3.And(z3.BoolVal(own_first), z3.BoolVal(bool(first)) == OWN_HIT, z3.BoolVal(True) if own_t is None else own_t == OWN_REF)), "the requested schema itself comes first, exactly when an object of it in a compatible version is attached"),
+            ("then-exactly-the-attached-schemas-that-are-children-of-a-compatible-release", z3.Implies(z3.Not(NAME_EMPTY), z3.ForAll([x], in_loop == z3.And(avail, compat))), "after that: exactly the schemas of attached objects that the container lists as children (descendants) of some release of the requested schema that the request supports — so an object answers to every ancestor schema, and nothing else is listed"),
+        ]
+
+
+class NameTok(SVal):
+    def py_truth(self, cx):
+        return z3.Not(NAME_EMPTY)
